@@ -24,6 +24,7 @@ Ltac not_attached :=
 (* no multiplexer group holds anything: no followers in groups *)
 Ltac no_followers :=
   let u := fresh "u" in let g := fresh "g" in let fs := fresh "fs" in let y := fresh "y" in let Hf := fresh "Hf" in
+  apply single_followers_moved;
   intros u g fs y Hf; exfalso; unfold gget in Hf; destruct g; vm_compute in Hf; discriminate.
 
 Lemma ok_hist_cons : forall s o r, ok_op_f s o -> ok_hist_f_from (fst (step s o)) r -> ok_hist_f_from s (o :: r).
@@ -135,7 +136,7 @@ Proof.
     - destruct u as [|u]; [exists g; reflexivity|]. exfalso. unfold lay, gget in HL. destruct u as [|u]; gcases HL g. }
   (* SetType of signal 3 inside the nested multiplexer 1: its follower (signal 4) is held by group 0 only *)
   hist_step.
-  { intros u g fs y Hf Hy g' Hg'. unfold gget in Hf, Hg'.
+  { apply single_followers_moved. intros u g fs y Hf Hy g' Hg'. unfold gget in Hf, Hg'.
     destruct u as [|[|u]].
     - exfalso. gcases Hf g.
     - destruct g as [|g]; [|exfalso; gcases Hf g].
@@ -143,7 +144,7 @@ Proof.
       destruct g' as [|g']; [reflexivity|]. exfalso. gcases Hg' g'.
     - exfalso. gcases Hf g. }
   hist_step.
-  { intros u g fs y Hf Hy g' Hg'. unfold gget in Hf, Hg'.
+  { apply single_followers_moved. intros u g fs y Hf Hy g' Hg'. unfold gget in Hf, Hg'.
     destruct u as [|[|u]].
     - exfalso. gcases Hf g.
     - destruct g as [|g]; [|exfalso; gcases Hf g].
@@ -161,3 +162,46 @@ Example mux_example_final :
      [[(4%nat, 4, 16)]; []],
      [0%nat], 5).
 Proof. vm_compute. reflexivity. Qed.
+
+(* ---------------------------------------------------------------------------------------------- *)
+(* 3. the hypothesis is value-based: signal 1 grows by 3 in group 0; its follower 2 (held by group *)
+(*    0 only) is pushed, the fixed signal 3 behind it (held by both groups) is not reached          *)
+(* ---------------------------------------------------------------------------------------------- *)
+Definition reach_example_ops : list op :=
+  [ONewMux 2 16; ONewStd 2; ONewStd 2; ONewStd 2;
+   OMuxInsert 0 1 0 [0]; OMuxInsert 0 2 2 [0]; OMuxInsert 0 3 8 [];
+   OSetType 1 5].
+
+Example reach_example_ok : ok_hist_f reach_example_ops.
+Proof.
+  unfold ok_hist_f, reach_example_ops.
+  do 4 hist_step.
+  hist_step; [left; not_attached_mux|].
+  hist_step; [left; not_attached_mux|].
+  hist_step; [left; not_attached_mux|].
+  hist_step.
+  { intros u g y Hy g' Hg'. unfold gget in Hy, Hg'.
+    destruct u as [|u].
+    - destruct g as [|g].
+      + vm_compute in Hy. destruct Hy as [<-|[]].
+        destruct g' as [|g']; [reflexivity|]. exfalso. gcases Hg' g'.
+      + exfalso. gcases Hy g.
+    - exfalso. gcases Hy g. }
+  hist_step.
+Qed.
+
+(* the strict condition fails here (3 is a follower of 1 held by two groups), the layout is as expected *)
+Example reach_example_final :
+  map (fun l => map (fun x => (x, rel (run reach_example_ops) x, sz (run reach_example_ops) x)) l) (ugroups (run reach_example_ops) 0)
+  = [[(1%nat, 0, 5); (2%nat, 5, 2); (3%nat, 8, 2)]; [(3%nat, 8, 2)]]
+  /\ ~ single_followers (run (firstn 7 reach_example_ops)) 1.
+Proof.
+  split; [vm_compute; reflexivity|].
+  intros Hs. specialize (Hs 0%nat 0%nat [2%nat; 3%nat] 3%nat eq_refl (or_intror (or_introl eq_refl)) 1%nat (or_introl eq_refl)). discriminate.
+Qed.
+
+Lemma reach_example_all : ok_hist_f reach_example_ops /\
+  map (fun l => map (fun x => (x, rel (run reach_example_ops) x, sz (run reach_example_ops) x)) l) (ugroups (run reach_example_ops) 0)
+  = [[(1%nat, 0, 5); (2%nat, 5, 2); (3%nat, 8, 2)]; [(3%nat, 8, 2)]]
+  /\ ~ single_followers (run (firstn 7 reach_example_ops)) 1.
+Proof. exact (conj reach_example_ok reach_example_final). Qed.
